@@ -67,7 +67,7 @@ type c07Session struct {
 }
 
 type c07Knobs struct {
-	SPKey      string `json:"sp_key"`              // rsa1..rsa4 | ec0 | ec1 | none (no certificate: nothing to encrypt to)
+	SPKey      string `json:"sp_key"`              // rsa1..rsa4 | rsasig | rsaski | ec0 | ec1 | none (no certificate: nothing to encrypt to)
 	EntityID   string `json:"sp_entity_id"`        // "" = unset (metadata URL is the entity ID)
 	Binding    string `json:"request_binding"`     // redirect | post
 	SPSig      string `json:"sp_signature_method"` // "" = unsigned requests
@@ -247,7 +247,7 @@ func genRoundtrip(g *Rng, tier string) *Plan {
 	k := c07DefaultKnobs()
 	switch g.PickW(66, 28, 6) {
 	case 0:
-		k.SPKey = Pick(g, "rsa1", "rsa2", "rsa3", "rsa4")
+		k.SPKey = Pick(g, "rsa1", "rsa2", "rsa3", "rsa4", "rsasig", "rsaski") // rsasig: keyUsage digitalSignature only; the SP publishes it for encryption all the same
 	case 1:
 		k.SPKey = "none"
 	case 2:
@@ -321,6 +321,11 @@ func genRoundtrip(g *Rng, tier string) *Plan {
 // ---------------------------------------------------------------- world
 
 func c07Key(name string) (KeyPair, bool) {
+	for _, k := range []KeyPair{rsaSig, rsaSKI} {
+		if k.Name == name {
+			return k, true
+		}
+	}
 	for _, k := range rsaKeys {
 		if k.Name == name {
 			return k, true
